@@ -289,7 +289,7 @@ PROPS["C10"] = dict(
          "level-0 residual pre-filled with generated garbage, twice with different garbage. mode 0: differential against "
          "the reference cycle (fresh vectors per depth; contains nu=0,L=2: u+P A_c^-1 R(f-Au) resp. the 4/3,-1/3 "
          "extrapolated correction); mode 1: f_h:=A_h u, f_c:=A_c Inj u makes u the exact solution, one cycle must return "
-         "it within 1e3*eps*kappa_est*|u|. Non-trivial: L>=3 or nu1+nu2>=1. Distinct: (cycle fn, smoothing mode, L, "
+         "it within 1e3*eps*kappa_est*|u| (kappa_est: coarsest-level estimate x 4^(L-1)). Non-trivial: L>=3 or nu1+nu2>=1. Distinct: (cycle fn, smoothing mode, L, "
          "nu1, nu2, strategy, BC, dims, mode).",
     technique="property-based testing (rapidcheck) through a guarded friend hook; differential against a reference correction scheme, fixed-point and scratch-independence (metamorphic) oracles",
     level_text="Generated (cycle, levels, smoothing counts, iterate, scratch pollution) cases run the real private cycle "
